@@ -62,6 +62,17 @@ impl Labels {
 		})
 	}
 
+	/// Like [`Labels::get_or_create_range`], but the range may also start at the end of the code: the `localvar_target` of a type
+	/// annotation has no requirement on `start_pc` (JVMS 4.7.20.1), and javac emits `start_pc == code_length, length == 0` for unused locals.
+	pub(crate) fn get_or_create_range_or_end(&mut self, start_pc: u16, length: u16) -> Result<LabelRange> {
+		Ok(LabelRange {
+			start: self.get_or_create_check_exclusive(start_pc)?,
+			end: self.get_or_create_check_exclusive(
+				start_pc.checked_add(length).with_context(|| anyhow!("range of length {length:?} starting at bytecode offset {start_pc:?} ends beyond any code"))?
+			)?,
+		})
+	}
+
 	pub(crate) fn try_get(&self, pc: u16) -> Result<Label> {
 		self.get(pc).with_context(|| anyhow!("no label at bytecode offset {pc:?}"))
 	}
